@@ -4,6 +4,7 @@ C04 — where login entries come from: no dictionary operation other than `ident
 -/
 import LimnoriaModel.C04.Plugin
 import LimnoriaModel.C04.Overlap
+import LimnoriaModel.C04.Names
 namespace C04
 open Py C03
 
@@ -532,14 +533,18 @@ structure Quiet (st st' : St) : Prop where
   auth : AuthFrom st.db.users [] st'.db.users
   masks : MasksFrom st.db.users st'.db.users
   now : st'.now = st.now
+  /-- ids and names of the records are untouched -/
+  sig : Inv st → sig st'.db.users = sig st.db.users
 
-theorem quiet_refl (st : St) : Quiet st st := ⟨id, authFrom_refl _ _, masksFrom_refl _, rfl⟩
+theorem quiet_refl (st : St) : Quiet st st := ⟨id, authFrom_refl _ _, masksFrom_refl _, rfl, fun _ => rfl⟩
 
 theorem quiet_trans {a b c : St} (h1 : Quiet a b) (h2 : Quiet b c) : Quiet a c :=
-  ⟨fun hi => h2.inv (h1.inv hi), authFrom_trans h1.auth h2.auth, masksFrom_trans h1.masks h2.masks, h2.now.trans h1.now⟩
+  ⟨fun hi => h2.inv (h1.inv hi), authFrom_trans h1.auth h2.auth, masksFrom_trans h1.masks h2.masks, h2.now.trans h1.now,
+    fun hi => (h2.sig (h1.inv hi)).trans (h1.sig hi)⟩
 
 theorem quiet_getUserId (st : St) (s : Str) : Quiet st (getUserId st s).1 :=
-  ⟨fun hi => getUserId_inv hi s, getUserId_auth st s, getUserId_masks st s, (getUserId_frame st s).1⟩
+  ⟨fun hi => getUserId_inv hi s, getUserId_auth st s, getUserId_masks st s, (getUserId_frame st s).1,
+    fun hi => getUserId_sig st s hi.recs⟩
 
 theorem quiet_getUser (st : St) (s : Str) : Quiet st (getUser st s).1 := by
   rw [getUser_state]; exact quiet_getUserId st s
@@ -912,6 +917,161 @@ theorem guard_not_follow {pwOk : Str → Str → Bool} {pst : PSt} {c : Cmd} {op
   | whoami p => simp only [guard] at hg; cases hg
   | tick dt => simp only [guard] at hg; injection hg with hg; subst hg; rfl
 
+/-- what a guard's operation may do to account names, in terms of the state the command met:
+`register` and the renaming half of `changename` come with a name that does not look like a
+hostmask and that nobody has; nothing else the plugin runs touches a name -/
+def OpNamesOK (st : St) : Op → Prop
+  | .register name _ => NameFresh st.db.users name
+  | .setName _ name => NameFresh st.db.users name
+  | op => op.keepsNames = true
+
+theorem removeOp_keeps (i : Nat) (m : Str) : (removeOp i m).keepsNames = true := by
+  unfold removeOp; split <;> rfl
+
+theorem opNamesOK_of_keeps {st : St} {op : Op} (h : op.keepsNames = true) : OpNamesOK st op := by
+  cases op <;> first | exact h | cases h
+
+theorem hostAddBody_names (pwOk : Str → Str → Bool) (pst : PSt) (st0 st : St) (p : Str) (u : User)
+    (hm pw : Str) (op : Op) (hg : (hostAddBody pwOk pst st p u hm pw).2 = .run op) : OpNamesOK st0 op := by
+  unfold hostAddBody hostAddCore at hg
+  generalize (if hm.isEmpty then p else hm) = hm' at hg
+  dsimp only at hg
+  split at hg
+  · cases hg
+  · split at hg
+    · cases hg
+    · split at hg
+      · cases hg
+      · injection hg with hg; subst hg; exact opNamesOK_of_keeps rfl
+
+theorem hostRemoveBody_names (pwOk : Str → Str → Bool) (pst : PSt) (st0 st : St) (p : Str) (u : User)
+    (hm pw : Str) (op : Op) (hg : (hostRemoveBody pwOk pst st p u hm pw).2 = .run op) : OpNamesOK st0 op := by
+  unfold hostRemoveBody hostRemoveCore at hg
+  generalize (if hm.isEmpty then p else hm) = hm' at hg
+  dsimp only at hg
+  split at hg
+  · split at hg
+    · cases hg
+    · injection hg with hg; subst hg; exact opNamesOK_of_keeps (removeOp_keeps _ _)
+  · injection hg with hg; subst hg; exact opNamesOK_of_keeps (removeOp_keeps _ _)
+
+theorem not_or_false {a b : Bool} (h : ¬ (a || b) = true) : a = false := by
+  cases a
+  · rfl
+  · exact absurd rfl h
+
+/-- **the plugin names accounts only with names that are free and do not look like hostmasks**:
+`register` and `changename` look the name up first (`getUserId` raising KeyError) and refuse
+hostmask-like names; no other command's operation touches a name -/
+theorem guard_names {pwOk : Str → Str → Bool} {pst : PSt} {c : Cmd} {op : Op} (hi : Inv pst.st)
+    (hg : (guard pwOk pst c).2 = .run op) : OpNamesOK pst.st op := by
+  cases c with
+  | register p name pw =>
+    simp only [guard] at hg
+    split at hg
+    · cases hg
+    · rename_i hkey
+      split at hg
+      · cases hg
+      · rename_i hshape
+        have hfresh : NameFresh pst.st.db.users name := getUserId_key_fresh (not_or_false hshape) hkey
+        dsimp only at hg
+        split at hg
+        · split at hg
+          · injection hg with hg; subst hg; exact hfresh
+          · cases hg
+        · injection hg with hg; subst hg; exact hfresh
+        · cases hg
+    · cases hg
+  | identify p name pw =>
+    simp only [guard] at hg
+    split at hg
+    · split at hg
+      · injection hg with hg; subst hg; exact opNamesOK_of_keeps rfl
+      · cases hg
+    · cases hg
+  | changename p name newname pw =>
+    simp only [guard] at hg
+    split at hg
+    · cases hg
+    · dsimp only at hg
+      split at hg
+      · cases hg
+      · rename_i hkey
+        split at hg
+        · cases hg
+        · rename_i hshape
+          split at hg
+          · injection hg with hg; subst hg
+            have hf := getUserId_key_fresh (not_or_false hshape) hkey
+            exact nameFresh_of_sig hf ((quiet_convOther pst.nicks pst.st name).sig hi).symm
+          · cases hg
+      · cases hg
+  | unidentify p =>
+    simp only [guard] at hg
+    split at hg
+    · injection hg with hg; subst hg; exact opNamesOK_of_keeps rfl
+    · cases hg
+  | hostAdd p name mask pw =>
+    simp only [guard] at hg
+    cases name with
+    | some n =>
+      dsimp only at hg
+      split at hg
+      · cases hg
+      · exact hostAddBody_names _ _ _ _ _ _ _ _ _ hg
+      · cases hg
+    | none =>
+      dsimp only at hg
+      split at hg
+      · cases hg
+      · exact hostAddBody_names _ _ _ _ _ _ _ _ _ hg
+      · exact hostAddBody_names _ _ _ _ _ _ _ _ _ hg
+  | hostRemove p name mask pw =>
+    simp only [guard] at hg
+    cases name with
+    | some n =>
+      dsimp only at hg
+      split at hg
+      · cases hg
+      · exact hostRemoveBody_names _ _ _ _ _ _ _ _ _ hg
+      · cases hg
+    | none =>
+      dsimp only at hg
+      split at hg
+      · cases hg
+      · exact hostRemoveBody_names _ _ _ _ _ _ _ _ _ hg
+      · exact hostRemoveBody_names _ _ _ _ _ _ _ _ _ hg
+  | setSecure p pw b =>
+    simp only [guard] at hg
+    split at hg
+    · cases hg
+    · split at hg
+      · injection hg with hg; subst hg; exact opNamesOK_of_keeps rfl
+      · cases hg
+  | whoami p => simp only [guard] at hg; cases hg
+  | tick dt => simp only [guard] at hg; injection hg with hg; subst hg; exact opNamesOK_of_keeps rfl
+
+/-- one dictionary operation that meets `OpNamesOK` keeps the names in order -/
+theorem step_namesOK {st0 st : St} (hi : Inv st) (hs : sig st.db.users = sig st0.db.users)
+    (hok : NamesOK st.db.users) {op : Op} (hop : OpNamesOK st0 op) : NamesOK (step st op).1.db.users := by
+  cases op with
+  | register name h => exact namesOK_register hi hok (nameFresh_of_sig hop hs) h
+  | setName id name => exact namesOK_setName hi hok id (nameFresh_of_sig hop hs)
+  | addHost id h => exact namesOK_of_sig hok (step_sig_same hi _ rfl)
+  | rmHost id h => exact namesOK_of_sig hok (step_sig_same hi _ rfl)
+  | clearHosts id => exact namesOK_of_sig hok (step_sig_same hi _ rfl)
+  | identify id h => exact namesOK_of_sig hok (step_sig_same hi _ rfl)
+  | unidentify id => exact namesOK_of_sig hok (step_sig_same hi _ rfl)
+  | secure id b => exact namesOK_of_sig hok (step_sig_same hi _ rfl)
+  | tick dt => exact namesOK_of_sig hok (step_sig_same hi _ rfl)
+  | rename _ _ => cases hop
+  | load _ _ _ _ => cases hop
+  | followNick id a b => exact namesOK_of_sig hok (step_sig_same hi _ rfl)
+  | delUser _ => cases hop
+  | lookup _ => cases hop
+  | order _ _ => cases hop
+
 theorem lookup_append_of_some {κ ν} [BEq κ] {l m : List (κ × ν)} {k : κ} {v : ν}
     (h : l.lookup k = some v) : (l ++ m).lookup k = some v := by
   induction l with
@@ -986,6 +1146,8 @@ structure PInv (pwOk : Str → Str → Bool) (pst : PSt) : Prop where
   disjoint : NoCommon pst.st.db.users
   linked : Linked pst
   events : EventsOK pst
+  /-- account names never look like hostmasks and are pairwise different -/
+  names : NamesOK pst.st.db.users
 
 theorem pstep_frame (pwOk : Str → Str → Bool) (pst : PSt) (c : Cmd) :
     (pstep pwOk pst c).1.events = pst.events ∧ (pstep pwOk pst c).1.follow = pst.follow := by
@@ -997,7 +1159,8 @@ theorem pstep_pinv {pwOk : Str → Str → Bool} {pst : PSt} (hi : PInv pwOk pst
   have hq := quiet_guard pwOk pst c
   rcases pstep_cases pwOk pst c with ⟨_, hst, hpws, hlog⟩ | ⟨op, hg, hst, ⟨extra, hpws⟩, hlogc⟩
   · -- the guard answered: only lookups happened
-    refine ⟨by rw [hst]; exact hq.inv hi.inv, ?_, ?_, ?_, ?_, ?_⟩
+    refine ⟨by rw [hst]; exact hq.inv hi.inv, ?_, ?_, ?_, ?_, ?_,
+      by rw [hst]; exact namesOK_of_sig hi.names (hq.sig hi.inv)⟩
     · intro u hu e he
       rw [hst] at hu
       rcases hq.auth u hu e he with ⟨v, hv, hid, hev⟩ | hx
@@ -1018,7 +1181,9 @@ theorem pstep_pinv {pwOk : Str → Str → Bool} {pst : PSt} (hi : PInv pwOk pst
       exact hi.events e he
   · -- one dictionary operation ran
     have hsa := step_auth (guard pwOk pst c).1 op
-    refine ⟨by rw [hst]; exact step_inv (hq.inv hi.inv) op, ?_, ?_, ?_, ?_, ?_⟩
+    refine ⟨by rw [hst]; exact step_inv (hq.inv hi.inv) op, ?_, ?_, ?_, ?_, ?_,
+      by rw [hst]; exact step_namesOK (hq.inv hi.inv) (hq.sig hi.inv)
+           (namesOK_of_sig hi.names (hq.sig hi.inv)) (guard_names hi.inv hg)⟩
     · intro u hu e he
       rw [hst] at hu
       have hsub : ∀ l, l ∈ pst.log → l ∈ (pstep pwOk pst c).1.log := by
@@ -1093,7 +1258,7 @@ theorem prun_pinv {pwOk : Str → Str → Bool} {pst : PSt} (hi : PInv pwOk pst)
 
 theorem pinit (pwOk : Str → Str → Bool) (db : Db) (h : db.users = []) (follow : Bool := false) :
     PInv pwOk { st := { db := db }, follow := follow } := by
-  refine ⟨⟨⟨by rw [h]; simp, ?_, ?_⟩, cacheInv_empty rfl rfl⟩, ?_, ?_, ?_, ?_, ?_⟩
+  refine ⟨⟨⟨by rw [h]; simp, ?_, ?_⟩, cacheInv_empty rfl rfl⟩, ?_, ?_, ?_, ?_, ?_, ?_⟩
   · intro u hu; rw [h] at hu; cases hu
   · intro u hu; rw [h] at hu; cases hu
   · intro u hu; simp only at hu; rw [h] at hu; cases hu
@@ -1101,6 +1266,7 @@ theorem pinit (pwOk : Str → Str → Bool) (db : Db) (h : db.users = []) (follo
   · intro u hu; simp only at hu; rw [h] at hu; cases hu
   · intro l hl; cases hl
   · intro e he; cases he
+  · refine ⟨?_, ?_⟩ <;> (intro p hp; simp only [sig, h, List.map_nil] at hp; cases hp)
 
 /-! ### the bot's own lookups around a command -/
 
@@ -1121,7 +1287,8 @@ theorem quiet_lookupsAbort (st : St) (p : Str) (n : Nat) : Quiet st (lookupsAbor
 
 theorem pinv_quiet {pwOk : Str → Str → Bool} {pst : PSt} {st' : St} (hi : PInv pwOk pst)
     (hq : Quiet pst.st st') : PInv pwOk { pst with st := st' } := by
-  refine ⟨hq.inv hi.inv, ?_, hi.logOK, noCommon_of_masksFrom hi.disjoint hq.masks, hi.linked, hi.events⟩
+  refine ⟨hq.inv hi.inv, ?_, hi.logOK, noCommon_of_masksFrom hi.disjoint hq.masks, hi.linked, hi.events,
+    namesOK_of_sig hi.names (hq.sig hi.inv)⟩
   intro u hu e he
   rcases hq.auth u hu e he with ⟨v, hv, hid, hev⟩ | hx
   · obtain ⟨l, hl, h1, h2, h3⟩ := hi.backed v hv e hev
@@ -1129,7 +1296,7 @@ theorem pinv_quiet {pwOk : Str → Str → Bool} {pst : PSt} {st' : St} (hi : PI
   · cases hx
 
 theorem pinv_nicks {pwOk : Str → Str → Bool} {pst : PSt} (hi : PInv pwOk pst) (n : List (Str × Str)) :
-    PInv pwOk { pst with nicks := n } := ⟨hi.inv, hi.backed, hi.logOK, hi.disjoint, hi.linked, hi.events⟩
+    PInv pwOk { pst with nicks := n } := ⟨hi.inv, hi.backed, hi.logOK, hi.disjoint, hi.linked, hi.events, hi.names⟩
 
 /-- the invariants survive a command as the live bot processes it, for any number of
 surrounding lookups -/
@@ -1195,7 +1362,8 @@ theorem nickStep_pinv {pwOk : Str → Str → Bool} {pst : PSt} (hi : PInv pwOk 
             | true => rfl
             | false => rw [hh] at hshape; exact absurd rfl hshape
           have hsa := step_auth (getUser pst.st p).1 (.followNick u.id p (newHost p nn))
-          refine ⟨step_inv h1.inv _, ?_, ?_, step_noCommon h1.inv h1.disjoint _, ?_, ?_⟩
+          refine ⟨step_inv h1.inv _, ?_, ?_, step_noCommon h1.inv h1.disjoint _, ?_, ?_,
+            namesOK_of_sig h1.names (step_sig_same h1.inv _ rfl)⟩
           · intro u' hu' e he
             rcases hsa u' hu' e he with ⟨v, hv, hid, hev⟩ | hx
             · obtain ⟨l, hl, a1, a2, a3⟩ := h1.backed v hv e hev
